@@ -71,7 +71,8 @@ def gen_cases(ctx):
     for _ in range(ctx.n(15, 80)):
         for v in ("tdvp1", "tdvp2"):
             cases.append({"kind": "saturated", "variant": v, "seed": rng.randrange(10 ** 9),
-                          "d": rng.choice([2, 3]), "rootfirst": rng.random() < 0.5})
+                          "d": rng.choice([2, 3]), "rootfirst": rng.random() < 0.5,
+                          "retime": rng.choice([None, None, 2, 3])})
     return cases
 
 
@@ -314,6 +315,10 @@ def _saturated(ctx, case):
     ctx.tally("variant", variant + "-saturated")
     try:
         algo = algos.make_algo(variant, ttns, H, dt, dt, [])
+        if case.get("retime"):
+            # "for all step sizes": the step size in force is the one set through the public setter
+            algo.set_num_time_steps_constant_final_time(case["retime"])
+            dt = algo.time_step_size
         algo.run_one_time_step()
         v1 = dense.ttns_vector(algo.state, order)
     except Exception as e:              # noqa: BLE001
